@@ -387,7 +387,7 @@ func TestVerif_C04(t *testing.T) {
 		"with WriteBufferSize 32 (< request head, so Request.Write itself hits the connection) or a 5000-byte POST body (> default buffer), so a call's deadline can expire after its request bytes started to reach the wire and before the write returns, followed by 1-2 more calls on the same client; " +
 		"connection-death history dimension (pipeline/redial/*): the pipelined connection dies {response cut mid-body, server closes after a complete response, no answer until the client's ReadTimeout} while a second thread submits {at the virtual instant of the failure, 1 ms before it} " +
 		"and the first thread makes a follow-up call {immediately, 1 ms later = on the re-dialled connection}, all calls {DoTimeout, Do}: 24 systems, all orders of reader / worker / writer failure handling against the submissions; " +
-		"all schedules, select choices and timer-first orders up to the deviation bound are executed (pipeline/redial/*: bound 0 = every order of the threads woken at the same virtual instant, quick; bound 1 thorough); " +
+		"all schedules, select choices and timer-first orders up to the deviation bound are executed (pipeline/redial/*: bound 0 = every order of the threads woken at the same virtual instant, quick; thorough: bound 1 except for submit-at-failure with immediate follow-up); " +
 		"oracle per execution (also for executions that end stuck: deadlock / step horizon): every call returning nil has X-Id == its request id, status 200 and body == the server's body for that id (streamed: a prefix, the whole body on EOF); non-trivial: executions with >=1 deviation")
 	r.Assume("mcrt shim semantics (litmus-tested)", "sync.Pool modelled as deterministic LIFO", "HostClient idle-connection cleaner not started (connsCleanerRun preset; C18 covers it)",
 		"response bodies may contain arbitrary bytes, including text shaped like an HTTP message", "scenarios named */v use a harness net.Conn whose peer is a serial server model on the virtual clock",
@@ -404,6 +404,18 @@ func TestVerif_C04(t *testing.T) {
 		scs = append(scs, mcx.Scenario{Name: name, Cfg: mcrt.Config{Bound: bound, TimerFirst: tf, Horizon: 6000}, Body: c04body1(cfg), Check: c04check(cfg)})
 	}
 	c04scenarios(add)
+	if r.Thorough() {
+		// Scenarios are dealt to the worker processes round-robin and run in list order under one common deadline. The
+		// one system whose thorough bound never completes within the budget goes last, so that it uses what is left of
+		// its worker's time instead of starving the scenarios listed after it on the same worker.
+		for i := range scs {
+			if scs[i].Name == "host/stream/chunked/2callers-2conns/mixed" {
+				big := scs[i]
+				scs = append(append(scs[:i:i], scs[i+1:]...), big)
+				break
+			}
+		}
+	}
 	mcx.Run(r, scs)
 }
 
@@ -571,7 +583,11 @@ func c04redialScenarios(add func(name string, qb, tb int, tf bool, cfg c04cfg)) 
 					if do {
 						to, nm = 0, nm+"/do"
 					}
-					add("pipeline/redial/"+cz.name+"/"+nm+"/v", 0, 1, false, c04cfg{vconn: true, pipeline: true, maxConns: 1, maxPending: 2, readTimeout: cz.rt,
+					tb := 0 // immediate follow-up after a failure at B's instant: 2-3*10^6 executions each at bound 1
+					if early || late {
+						tb = 1
+					}
+					add("pipeline/redial/"+cz.name+"/"+nm+"/v", 0, tb, false, c04cfg{vconn: true, pipeline: true, maxConns: 1, maxPending: 2, readTimeout: cz.rt,
 						callers: [][]c04call{{{id: "A", timeout: to}, {id: "C", timeout: to, after: cAfter}}, {{id: "B", timeout: to, after: bAt}}},
 						beh:     map[string]c04beh{"A": cz.a, "B": {chunked: true}, "C": {}}})
 				}
